@@ -100,6 +100,10 @@ def generate(rng, tier):
     cases = []
     pbin = ["add", "sub", "mul", "gcd", "lcm", "rem", "prem", "sprem", "resultant", "addmul", "submul", "div"]
     pun = ["neg", "derivative", "cont", "pp", "reductum", "assign"]
+    # the value argument is a sub-object of the output interval (its own end)
+    for _ in range(40 if tier == "quick" else 600):
+        lo, hi = sorted(rng.sample(range(len(IVALS)), 2))
+        cases.append("isub %s %d %s %d" % (IVALS[lo], rng.randint(0, 1), IVALS[hi], rng.randint(0, 1)))
     # variable lists / orders over a large variable database: ids far above the number of pushed variables
     for _ in range(12 if tier == "quick" else 200):
         nv = rng.choice([8, 40, 130, 260, 300, 700])
@@ -176,7 +180,7 @@ def generate(rng, tier):
 
 def tag(case):
     t = case.split()
-    return t[0] + (":" + t[1] if t[0] not in ("rc", "vlist") else "")
+    return t[0] + (":" + t[1] if t[0] not in ("rc", "vlist", "isub") else "")
 
 
 def nontrivial(case):
